@@ -34,7 +34,7 @@ EXPLANATION = ("Theorems: a tiebreak resolution is a strict order of exactly the
                "tiebreaks are sorted by that score. Monitors: identical outcome under three seeds unless a tiebreak is "
                "recorded, no random primitive is called when none is recorded, recorded sets are genuinely tied and obeyed.")
 
-N_QUICK, N_THOROUGH = 900, 10800
+N_QUICK, N_THOROUGH = 900, 32400
 RULES = ["STV", "STV", "IRV", "SequentialRCV", "Plurality", "SNTV", "Borda", "TopTwo", "Alaska", "DominatingSets",
          "CondoBorda", "Rating", "Approval", "Cumulative", "Limited", "BlocPlurality"]
 
